@@ -17,7 +17,9 @@
 EXTENDS Naturals, Integers, Sequences, FiniteSets, TLC
 
 CONSTANTS Procs,      \* process identifiers (launches of the same script)
-          FixF6       \* TRUE: the success path keeps the exit-time cleanup registered (repaired)
+          FixF6,      \* TRUE: the success path keeps the exit-time cleanup registered (repaired)
+          FixF21      \* TRUE: a handled signal leaves with os._exit(1) (repaired); FALSE (pinned): with sys.exit(1), an
+                      \* exception that is lost when the handler runs inside an at-fork callback of a forking task body
 
 VARIABLES done, failedm, pidf, lock,      \* the job directory: markers and the run lock ("free", "H" = launcher, or a process)
           pc, ctx, termH, intH, reg, cleaned, rc, ret, sig,   \* per process
@@ -169,7 +171,16 @@ Handled(p) ==
      /\ flags' = [flags EXCEPT ![p].wroteFailed = TRUE,
                                ![p].removedPid = @ \/ full,
                                ![p].sigInBody = pc[p] \in Body]
-     /\ IF ctx[p] = "fin"
+     /\ \E sw \in BOOLEAN :       \* (pinned only: whether the interpreter happened to be inside an at-fork callback)
+        IF FixF21
+        THEN (* os._exit(1): no exception, no exit-time callback, nothing else is written *)
+             /\ pc' = [pc EXCEPT ![p] = "final"] /\ rc' = [rc EXCEPT ![p] = 1]
+             /\ UNCHANGED <<ctx, ret>>
+        ELSE IF pc[p] \in Body /\ sw
+        THEN (* pinned: the handler ran inside an at-fork callback of the task body (os.fork): its SystemExit is
+                ignored and the body goes on -- with the failure marker written, the run lock and the pid file gone *)
+             UNCHANGED <<pc, rc, ctx, ret>>
+        ELSE IF ctx[p] = "fin"
         THEN (* inside an exit-time callback: SystemExit is swallowed or becomes the status *)
              /\ pc' = [pc EXCEPT ![p] = "final"]
              /\ rc' \in {[rc EXCEPT ![p] = rc[p]], [rc EXCEPT ![p] = 1]}
